@@ -334,8 +334,14 @@ def check(repo: Repo) -> Result:
     if not n_m:
         res.ok("simplify-helpers-not-memoised-by-registry-identity", r4)
     cf = uo.func("_create_unit_from_factor")
-    rets = [norm(n.value) for n in walk_no_nested(cf.node) if isinstance(n, ast.Return)]
-    res.check(rets == ["Unit(base, f[0], f[2], f[1], registry, f[3]) ** exp"], "factor-unit", cf.where(), "a factor's unit is the registry row of its base raised to the factor's own exponent", found=rets, rid=r4)
+    # value flow with the locals substituted (engine.sem.summarise): independent of how many temporaries hold the row
+    from engine.sem import summarise as _summ
+
+    fac, rg = cf.params[0], cf.params[1]
+    rets = [(x.value, x.effects) for x in _summ(cf) if x.kind == "return"]
+    row = f"{rg}[str(base)]"
+    want_v = f"Unit(base, {row}[0], {row}[2], {row}[1], {rg}, {row}[3]) ** exp"
+    res.check(len(rets) == 1 and rets[0][0] == want_v and rets[0][1] == [f"base, exp = {fac}.as_base_exp()"], "factor-unit", cf.where(), "a factor's unit is the registry row of its base raised to the factor's own exponent", want_v, rets, rid=r4)
 
     from rules import c04
     from rules.common import share
